@@ -63,3 +63,18 @@ Lemma replay_trace_ok :
      [via_create (otx_of tx1 "polygon" con1); via_mint (otx_of tx1 "Polygon" con2);
       via_receive (otx_of tx1 "POLYGON" con2)]) = 1%nat.
 Proof. vm_compute. reflexivity. Qed.
+
+(* the invariant of C13 holds in the example genesis state, hence (C13_no_double_issuance) along
+   every run of base-module messages from it *)
+Lemma ex0_contracts : Inv_contracts ex0.
+Proof.
+  split; [|split; [|split; [|split; [|split]]]].
+  - intros k1 k2 c1 c2 H. cbn in H. rewrite lookup_empty in H. discriminate.
+  - intros k c H. cbn in H. rewrite lookup_empty in H. discriminate.
+  - intros k1 k2 p1 p2 H1 H2 _. cbn in H1, H2.
+    apply lookup_singleton_Some in H1. apply lookup_singleton_Some in H2.
+    destruct H1 as [<- _]. destruct H2 as [<- _]. reflexivity.
+  - intros k [x Hx]. cbn in Hx. apply lookup_singleton_Some in Hx. destruct Hx as [<- _]. cbn. reflexivity.
+  - intros k [x Hx]. cbn in Hx. rewrite lookup_empty in Hx. discriminate.
+  - intros k1 k2 b1 b2 H. cbn in H. rewrite lookup_empty in H. discriminate.
+Qed.
